@@ -171,6 +171,14 @@ func runC02(c *Ctx) {
 					}
 					n := nets[net-1]
 					prefixes := []string{n.CashAddressPrefix, n.SlpAddressPrefix, "bitcoincash", "bchtest", "simpleledger", "unknownpfx"}
+					// near misses of the net's own prefixes: extensions, truncations, the empty prefix
+					if ver == 0 || ver == 8 || ver == 0x0b || c.Thorough() {
+						cp, sp := n.CashAddressPrefix, n.SlpAddressPrefix
+						prefixes = append(prefixes, cp+"x", cp+"sv", cp+cp, cp[:len(cp)-1], cp[1:], "x"+cp)
+						if sp != "" {
+							prefixes = append(prefixes, sp+"s", sp+"net", sp[:len(sp)-1], sp[1:], cp+sp)
+						}
+					}
 					for pi, pfx := range prefixes {
 						if pfx == "" {
 							continue
@@ -355,7 +363,11 @@ func runC03(c *Ctx) {
 					for _, p := range pos {
 						old := m[p]
 						for m[p] == old {
-							m[p] = b32alpha[r.Intn(32)]
+							if k%5 == 4 { // any character at all, not only the 32 symbols
+								m[p] = byte(33 + r.Intn(94))
+							} else {
+								m[p] = b32alpha[r.Intn(32)]
+							}
 						}
 					}
 					s := pfx + ":" + string(m)
@@ -402,11 +414,27 @@ func runC03(c *Ctx) {
 			w = dl
 		}
 		pos := r.Perm(dl)[:w]
+		if k%3 == 2 { // aim at the symbols of value 0 / 31 ('q', 'l'): a decoder that maps unknown characters to a symbol shows up here
+			var qs []int
+			for p := 0; p < dl; p++ {
+				if ch := m[len(hrp)+1+p]; ch == 'q' || ch == 'l' {
+					qs = append(qs, p)
+				}
+			}
+			if len(qs) >= w {
+				r.Shuffle(len(qs), func(i, j int) { qs[i], qs[j] = qs[j], qs[i] })
+				pos = qs[:w]
+			}
+		}
 		for _, p := range pos {
 			q := len(hrp) + 1 + p
 			old := m[q]
 			for m[q] == old {
-				m[q] = b32alpha[r.Intn(32)]
+				if k%3 != 0 { // any printable character (foreign characters, digits 'b' 'i' 'o', the other case)
+					m[q] = byte(33 + r.Intn(94))
+				} else {
+					m[q] = b32alpha[r.Intn(32)]
+				}
 			}
 		}
 		t := string(m)
